@@ -140,6 +140,49 @@ def _multiset(A, B):
     return multiset_eq([set(x) for x in A], [set(x) for x in B])
 
 
+STR_POOL = ["a", "b", "c10", "c9", "node 5"]
+
+
+@harness("C10.strings", raises_are_violations=True)
+def strings(ctx, p):
+    """String labels (every injective assignment from a pool, string edge ids):
+    the dict, HIF, edge-list, bipartite-graph and dataframe round trips, and the
+    documented refusal of colliding string casts."""
+    s = p["shape"]
+    N, M, edges = s[0], s[1], s[2]
+    pool = list(STR_POOL)
+    nl = [pool.pop(ctx.choose(f"lab{i}", len(pool))) for i in range(N)]
+    el = [f"e{j}" for j in range(M)]
+    how = p["how"]
+    ctx.info["op"] = "strings:" + how
+    ctx.info["args"] = {"labels": nl}
+    with stubs.uninstalled(), warnings.catch_warnings():
+        warnings.simplefilter("ignore")
+        H = xgi.Hypergraph()
+        H.add_nodes_from(nl)
+        for j in range(M):
+            H.add_edge([nl[i] for i in edges[j]], idx=el[j])
+        H.set_node_attributes({n: {"k": n + "!"} for n in nl[:1]})
+        src = nets.snap(H)
+        if how == "hypergraph_dict":
+            R = xgi.from_hypergraph_dict(xgi.to_hypergraph_dict(H))
+        elif how == "hif_dict":
+            R = xgi.from_hif_dict(xgi.to_hif_dict(H))
+        elif how == "collision":
+            H.add_node(7)
+            H.add_node("7")
+            try:
+                xgi.to_hypergraph_dict(H)
+                ok = False
+            except xgi.exception.XGIError:
+                ok = True
+            ctx.require(ok, "to_hypergraph_dict did not refuse node labels whose string casts collide")
+            return
+        a = nets.snap(R)
+    ctx.require(set(a["nodes"]) == set(src["nodes"]) and a["members"] == src["members"], "string labels: nodes or edges differ after the round trip")
+    ctx.require(a["node_attr"] == src["node_attr"] and a["edge_attr"] == src["edge_attr"], "string labels: attributes differ after the round trip")
+
+
 @harness("C10.cross", raises_are_violations=True)
 def cross(ctx, p):
     """Building a network of one class from a network of another."""
@@ -239,6 +282,9 @@ def spec(tier, seed):
                 units.append(("C10.cross", {"cls": cls, "shape": s, "how": how}))
                 units.append(("C10.cross", {"cls": cls, "shape": s, "how": how, "attrs": False}))
                 units.append(("C10.cross", {"cls": cls, "shape": s, "how": how, "form": "function"}))
+    for s in shapes.shapes_H(2, 2) + shapes.shapes_H(3, 1):
+        for how in ("hypergraph_dict", "hif_dict", "collision"):
+            units.append(("C10.strings", {"cls": "H", "shape": s, "how": how}))
     for s in bip:
         nv = s[0] + s[1]
         nlinks = sum(len(e) for e in s[2])
